@@ -280,7 +280,11 @@ def emit(cases, shard=120):
 
 
 def run(ctx: vlib.Ctx, n_schemas: int, per_schema: int):
-    cases = make_cases(ctx.rng, n_schemas, per_schema)
+    from harness.props import c05_emit
+    with c05_emit.UnionSources() as us:
+        cases = make_cases(ctx.rng, n_schemas, per_schema)
+    # kernel K19: the union methods the generator produced here vs the translated emission loop (ErrsEmit.v)
+    c05_emit.run(ctx, us.sources, cases)
     for c in cases:
         c["term"], exc, r, c["cx"], d_after = observe(c)
         ctx.count(("xtyped", c["kind"], c["entry"], type(exc).__name__ if exc else "ok"))
